@@ -58,6 +58,15 @@ def properAncestor (cwd : List Str) (p : Str) : Bool :=
 def strPrefixSelect (cwd : List Str) (paths : List Str) : List Str :=
   paths.filter (fun p => (cwdStr cwd).isPrefixOf p && p != cwdStr cwd)
 
+/-- NOT the code: the guard path computed against the CURRENT DIRECTORY instead of the repository
+    root (`dest_path.to_absolute_path(current_dir)`): the root-relative destination is appended to
+    `root/cwd`.  At the root it is `guardPath`; kept only for `C18_copy_guard_against_cwd_differs`. -/
+def guardPathFromCwd (root cwd : List Str) (dest : Str) (src : List Str) : List Str :=
+  root ++ cwd ++ copyDest cwd dest src
+
+/-- a destination argument without its directory marker -/
+def stripSlash (d : Str) : Str := if endsWithSlash d then d.dropLast else d
+
 /-! ## characters of a joined path -/
 
 /-- a well-formed current directory: non-empty components without `/` -/
